@@ -29,7 +29,7 @@ func writeReplay(path, id string, ob *eng.Obligation, res *checkResult, o checkO
 	if ob.Model != "" {
 		rec["model"] = ob.Model
 	}
-	if ob.Status == "failed" && ob.Model != "" {
+	if (ob.Status == "failed" || ob.Status == "unknown") && ob.Model != "" {
 		if r := tryReplay(ob, res, o); r != nil {
 			rec["replay"] = r
 			confirmed = r.Confirmed
